@@ -12,7 +12,7 @@ exec 9>$V/build/.lock
 flock 9
 H=$( (cd $REPO && find . -type f \( -name '*.go' -o -name '*.s' -o -name '*.h' -o -name go.mod \) ! -name '*_test.go' ! -path './.git/*' ! -path './testc/*' ! -path './benchmark/*' ! -path './cmd/*' -print0 | sort -z | xargs -0 sha256sum; cd $V && find harness simgen third_party -type f -print0 | sort -z | xargs -0 sha256sum) | sha256sum | cut -c1-16)
 WANT_RACE=${VERIF_RACE:-1}
-if [ -x $V/build/vcheck-$H ] && { [ "$WANT_RACE" = 0 ] || [ -x $V/build/vcheck-race-$H ]; }; then echo $H; exit 0; fi
+if [ -x $V/build/vcheck-$H ] && [ -x $V/build/vreal-$H ] && { [ "$WANT_RACE" = 0 ] || [ -x $V/build/vcheck-race-$H ]; }; then echo $H; exit 0; fi
 S=$(mktemp -d ${TMPDIR:-/tmp}/verif-scratch-XXXXXX)
 trap 'rm -rf "$S"' EXIT
 ( set -e
@@ -32,7 +32,20 @@ trap 'rm -rf "$S"' EXIT
   if [ "$WANT_RACE" != 0 ] && [ ! -x $V/build/vcheck-race-$H ]; then
     $GO build -race -tags verif -o $V/build/vcheck-race-$H.tmp ./cmd/vcheck && mv $V/build/vcheck-race-$H.tmp $V/build/vcheck-race-$H
   fi
+  if [ ! -x $V/build/vreal-$H ]; then
+    # the same harness linked with the UN-rewritten library (fidelity / fresh-process probes)
+    R=$S/real; mkdir -p $R
+    rsync -a --prune-empty-dirs --exclude='.git/' --exclude='/testc/' --exclude='/benchmark/' --exclude='/cmd/' --exclude='/testdata/' --exclude='*_test.go' --include='*/' --include='*.go' --include='*.s' --include='*.h' --include='go.mod' --exclude='*' $REPO/ $R/
+    [ -f $R/go.mod ] || exit 1
+    mkdir -p $R/internal/verifx $R/cmd
+    cp -r $V/harness/internal/vsim $R/internal/vsim
+    printf 'package vsim\n\n// ProcsSites is empty: this build links the un-rewritten library.\nvar ProcsSites = []string{}\n' > $R/internal/vsim/sites_gen.go
+    cp -r $V/harness/internal/verifh $R/internal/verifh
+    cp -r $V/harness/cmd/vcheck $R/cmd/vcheck
+    cp -r $V/third_party/ximage $R/internal/verifx/ximage
+    (cd $R && $GO build -tags verif -o $V/build/vreal-$H.tmp ./cmd/vcheck && mv $V/build/vreal-$H.tmp $V/build/vreal-$H)
+  fi
 ) >&2 || { echo "BUILD-FAILED" >&2; [ -n "${VERIF_KEEP_SCRATCH:-}" ] && { trap - EXIT; echo "scratch kept at $S" >&2; }; exit 2; }
 # keep only the newest two builds
-ls -t $V/build/vcheck-* 2>/dev/null | grep -v "\-$H" | tail -n +5 | xargs -r rm -f
+ls -t $V/build/vcheck-* $V/build/vreal-* 2>/dev/null | grep -v "\-$H" | tail -n +7 | xargs -r rm -f
 echo $H
